@@ -340,9 +340,16 @@ func (c *context) RecvMsg() (*protocol.Message, error) {
 		c.cond.Wait()
 	}
 
-	m := c.repMsg
-	c.reqID = 0
-	c.repMsg = nil
+	// Only consume the reply (and retire the request) if the request we
+	// were waiting for is still the current one.  If it was replaced by a
+	// newer SendMsg, the new request ID and any reply to it belong to the
+	// next RecvMsg call.
+	var m *protocol.Message
+	if id == c.reqID {
+		m = c.repMsg
+		c.reqID = 0
+		c.repMsg = nil
+	}
 	c.receiveWait = false
 	c.cond.Broadcast()
 
